@@ -31,7 +31,8 @@ const raceThreads = 8
 
 // raceOverlap serves every list of phases from raceThreads goroutines at once (each starts at its own offset and
 // goes round the list reps times); the phases run one after the other.
-func raceOverlap(h http.Handler, phases [][]raceReq, reps int) {
+func raceOverlap(a *app.VerifApp, phases [][]raceReq, reps int) {
+	h := a.Ingress
 	for _, reqs := range phases {
 		if len(reqs) == 0 {
 			continue
@@ -53,7 +54,16 @@ func raceOverlap(h http.Handler, phases [][]raceReq, reps int) {
 						continue
 					}
 					req.RemoteAddr = q.remote
-					h.ServeHTTP(httptest.NewRecorder(), req)
+					rec := httptest.NewRecorder()
+					h.ServeHTTP(rec, req)
+					if rec.Code == http.StatusAccepted {
+						// keep the store small (an Enqueue walks the whole inventory): take out what was queued
+						if resp, err := a.Store.Dequeue(queue.DequeueRequest{Batch: 16}); err == nil {
+							for _, it := range resp.Items {
+								a.Store.Ack(it.LeaseID)
+							}
+						}
+					}
 				}
 			}(g)
 		}
@@ -117,7 +127,7 @@ func TestRace(t *testing.T) {
 				status = append(status, mfResolve(routes, q, ip).Status)
 			}
 			phases := racePhases(all, status)
-			raceOverlap(a.Ingress, phases, 6)
+			raceOverlap(a, phases, 6)
 			for _, p := range phases {
 				served += 6 * raceThreads * len(p)
 			}
@@ -142,7 +152,7 @@ func TestRace(t *testing.T) {
 			status = append(status, st)
 		}
 		phases := racePhases(all, status)
-		raceOverlap(a.Ingress, phases, 2)
+		raceOverlap(a, phases, 2)
 		for _, p := range phases {
 			served += 2 * raceThreads * len(p)
 		}
@@ -178,7 +188,7 @@ func TestRace(t *testing.T) {
 			status = append(status, hostExpect(c, hostRefHolds(c.pats(pats), h, hip)).Status)
 		}
 		phases := racePhases(all, status)
-		raceOverlap(a.Ingress, phases, 1)
+		raceOverlap(a, phases, 1)
 		for _, p := range phases {
 			served += raceThreads * len(p)
 		}
